@@ -2,7 +2,8 @@
 from vlib.tok import f64, s as S, lst
 from checks.storegen import World, NAMES, PLAIN, BAD_NAMES
 ID = 'C09'
-THEOREMS = [
+LEAN_MODULES = ['NixModel.Props.C09', 'NixModel.Props.C09Catches', 'NixModel.Gen.Catches']
+THEOREMS = ['Nix.Catches.no_handler_swallows', 'Nix.Catches.one_query_handler', 
     'Nix.C09.ro_missing_refused', 'Nix.C09.ro_missing_refused_rel', 'Nix.C09.ro_open_never_writes', 'Nix.C09.ro_open_exposes',
     'Nix.C09.headerDefect_iff_not_ok', 'Nix.C09.gate_passes_iff', 'Nix.C09.bad_header_refused', 'Nix.C09.plain_hdf5_refused',
     'Nix.C09.non_hdf5_refused', 'Nix.C09.empty_file_refused', 'Nix.C09.open_accepted_iff',
@@ -360,7 +361,7 @@ LEVEL_TEXT = ('Lean 4 theorems about a statement-by-statement model of File::ope
               'point seen as a program over HDF5 calls: on a read-only file it never changes the store, and if it would change a writable store it throws. '
               'The model is tied to the library by replaying every generated open on it and by attempting every mutating entry point the harness reaches '
               'in read-only sessions with byte-hash and dump comparison.')
-LEVEL_NOTE = ('Trusted: Lean kernel; the hand-written model (OpenMode.lean) and the claim that nix entry points are catch-free programs over HDF5 calls (checked by '
-              'reading and by the tie, not proved from the C++); HDF5 honouring H5F_ACC_RDONLY (observed through the byte hash); harness, generators, dump. '
+LEVEL_NOTE = ('Trusted: Lean kernel; the hand-written model (OpenMode.lean) and the claim that nix entry points are catch-free programs over HDF5 calls (re-established on every run from the '
+              'list of exception handlers the translator gen/extract_catches.py takes out of the sources: no_handler_swallows; and by the tie); HDF5 honouring H5F_ACC_RDONLY (observed through the byte hash); harness, generators, dump. '
               'Entity-level entry points are covered by the generic program theorem plus the tie; only the File-level ones (createBlock/Section, '
               'deleteBlock/Section, forceId, force*At) are modelled concretely.')
